@@ -13,6 +13,7 @@ BUILDERS = [
     lambda: C.go_build("pure"),
     lambda: conc.build_replayer(),
     lambda: conc.build_driver("queue"),
+    lambda: conc.build_driver("adder"),
 ]
 
 def replay(prop_id, path):
